@@ -332,7 +332,7 @@ func c13r2(r *R) {
 		nRelayed, nLocal := 0, 0
 		for _, p := range ps {
 			relayed := p.hasCond(func(c string) bool {
-				return strings.HasPrefix(c, "!(martian.maybeConnectErrorResponse(") && strings.HasSuffix(c, " == nil)")
+				return strings.HasPrefix(c, "(martian.maybeConnectErrorResponse(") && strings.HasSuffix(c, " != nil)")
 			})
 			wi := p.eventIndex(0, "call", contains(").writeResponse("))
 			if wi < 0 {
